@@ -86,7 +86,9 @@ class Ctx:
         tag = tag or (module + "-" + os.path.basename(cfg))
         md = os.path.join(self.work, "md-" + re.sub(r"[^A-Za-z0-9_.-]", "_", tag) + "-%d" % int(time.time() * 1000))
         e = dict(os.environ)
-        jopts = []
+        jtmp = os.path.join(self.work, "jtmp")      # TLC litters java.io.tmpdir with tlc-<n> directories
+        os.makedirs(jtmp, exist_ok=True)
+        jopts = ["-Djava.io.tmpdir=" + jtmp]
         if deque:
             jopts.append("-Dtlc2.tool.queue.IStateQueue=StateDeque")
         if xss:
